@@ -38,6 +38,8 @@ def main():
     ap.add_argument("dir")
     ap.add_argument("--tier", default="quick")
     ap.add_argument("--demo", action="store_true")
+    ap.add_argument("--pkgtests", action="store_true", help="run the existing tests of the touched packages with the patch and compare with BASELINE.json")
+    ap.add_argument("--nocheck", action="store_true", help="only confirm the seeded change (demo / package tests), do not run the checks")
     ap.add_argument("--props", default=None, help="comma list of property ids to run (default: meta.json property)")
     a = ap.parse_args()
     d = os.path.abspath(a.dir)
@@ -69,7 +71,24 @@ def main():
             rc1, o1 = sh("go test -vet=off -count=1 -run '%s' ./%s/" % (run, pkg), cwd=wt)
             res["demo_with_patch"] = "pass" if rc1 == 0 else "FAIL"
             os.remove(dst)
-        for pid in props:
+        if a.pkgtests:
+            pkgs = sorted(set(os.path.dirname(l[6:].strip()) for l in open(os.path.join(d, "patch.diff")) if l.startswith("+++ b/") and l.strip().endswith(".go")))
+            base = json.load(open("/root/.vp/BASELINE.json"))["stable_pass"]
+            seen = {}
+            for pk in pkgs:
+                rc, out = sh("go test -json -vet=off -count=1 -timeout 20m ./%s/" % pk, cwd=wt)
+                for line in out.splitlines():
+                    try:
+                        o = json.loads(line)
+                    except Exception:
+                        continue
+                    if o.get("Test") and o.get("Action") in ("pass", "fail", "skip"):
+                        seen[o["Package"] + "::" + o["Test"]] = o["Action"]
+            want = [t for t in base if any(t.startswith("github.com/XiaoMi/Gaea/" + pk + "::") for pk in pkgs)]
+            bad = [t for t in want if seen.get(t) != "pass"]
+            res["existing_tests"] = {"packages": pkgs, "baseline_tests": len(want), "not_passing": bad[:20]}
+            print("existing tests of", pkgs, ":", len(want) - len(bad), "of", len(want), "baseline tests pass with the patch")
+        for pid in ([] if a.nocheck else props):
             t0 = time.time()
             rc, out = sh("python3 tools/vcheck.py %s --tier %s" % (pid, a.tier), cwd=VERIF, env={"VERIF_REPO": wt})
             viol = [l for l in out.splitlines() if l.startswith("VIOLATION")]
